@@ -44,7 +44,10 @@ def main():
             for f, dd in demo_dirs.items():
                 dst = os.path.join(d, dd, 'zz_seed_' + f if f.endswith('_test.go') else f)
                 shutil.copy(os.path.join(src, f), dst)
-                rc, out = sh(['go', 'test', '-vet=off', '-count=1', '-race' if pid == 'C10' else '-count=1', '-run', '.', './' + dd], d, env, 900)
+                tags = re.findall(r'^//go:build\s+(\w+)\s*$', open(os.path.join(src, f)).read(), re.M)
+                targ = ['-tags', tags[0]] if tags else []
+                race = ['-race'] if ('-race' in notes and 'only fails under' in notes) or pid == 'C10' else []
+                rc, out = sh(['go', 'test', '-vet=off', '-count=1'] + targ + race + ['-run', '.', './' + dd], d, env, 900)
                 os.remove(dst)
                 out_all += out[-3000:]
                 rc_all |= rc
@@ -63,6 +66,18 @@ def main():
         rc, out = sh(['go', 'build', './...'], d, env)
         meta['steps']['builds'] = rc == 0
         rc, out = sh(['go', 'test', '-vet=off', '-count=1', './...'], d, env, 1800)
+        if rc != 0:
+            # timing-sensitive existing tests can flake on a busy machine: re-run the failing packages alone, twice
+            failed = re.findall(r'^FAIL\s+(\S+)', out, re.M)
+            pk = ['./' + f.replace('github.com/pion/interceptor/', '') for f in failed if f.startswith('github.com')]
+            for _ in range(2):
+                if not pk:
+                    break
+                rc2, out2 = sh(['go', 'test', '-vet=off', '-count=1'] + pk, d, env, 1800)
+                if rc2 == 0:
+                    rc = 0
+                    meta['steps']['existing_suite_note'] = 'packages %s failed once on the busy machine and passed when re-run alone' % pk
+                    break
         meta['steps']['existing_suite_with_change'] = 'pass' if rc == 0 else 'FAIL'
         if rc != 0:
             meta['steps']['existing_suite_output'] = out[-1500:]
